@@ -3407,6 +3407,28 @@ def _replay_dynslice(r):
     return 0 if same else 1
 
 
+def _replay_float(r):
+    import jax
+    import jax.numpy as jnp
+    from jax2onnx import to_onnx
+    fp = {p_.id: p_ for p_ in float_programs("thorough")}[r["id"]]
+    cols = [np.array([v_], dtype=np.float32) for v_ in r["input"]]
+    jx = np.asarray(fp.fn(*[jnp.asarray(c_) for c_ in cols]))
+    model = to_onnx(fp.fn, [jax.ShapeDtypeStruct(c_.shape, c_.dtype) for c_ in cols])
+    feeds = dict(zip([i.name for i in model.graph.input], cols))
+    print("nodes:", structure(model)[:10])
+    print("input:", r["input"], "eager JAX:", jx.tolist(), "signbit", np.signbit(jx).tolist() if jx.dtype.kind == "f" else "")
+    try:
+        ref = _fref(model, feeds)
+    except Unrecognised as e:
+        print("the exported graph uses", e, "-> still violated")
+        return 1
+    print("ONNX operator specifications:", np.asarray(ref).tolist(), "signbit", np.signbit(ref).tolist() if np.asarray(ref).dtype.kind == "f" else "")
+    same = bool(_fsame(ref, jx).all())
+    print("-> ok" if same else "-> still violated")
+    return 0 if same else 1
+
+
 def _retree(t):
     """JSON turns the tuples of a program tree into lists; the children list (third field of an op) stays a list"""
     if t[0] == "op":
@@ -3425,6 +3447,8 @@ def replay(path):
         return _replay_explored(r)
     if r.get("kind") == "dynslice":
         return _replay_dynslice(r)
+    if r.get("kind") == "float":
+        return _replay_float(r)
     ks = {k.name: k for k in _kernels()}
     k, dt = ks[r["kernel"]], r["dtype"]
     cols = []
